@@ -228,4 +228,11 @@ theorem enumFrom_getElem? (i : Nat) (l : List Name) (k : Nat) :
       congr 1
       omega
 
+theorem goDomainIdx_le (t : NetworkType) : goDomainIdx ⟨6, 2, 0, 1, 2⟩ t ≤ 2 := by
+  unfold goDomainIdx
+  split
+  · simp
+  · split <;> simp
+
+
 end DaeVerif.C19
